@@ -645,6 +645,10 @@ type trigObs struct {
 	Sorted bool     `json:"sorted"`
 	Msg    msgObs   `json:"msg"`
 	Sh     []AbsMsg `json:"sh"`
+	// result of the trigger event as the key share handler set it (information; "shares exist
+	// already" / "not a keyper" / "key generation failed" arrive as errors because the sentinel
+	// ErrIgnoreDecryptionRequest only supplies the message text, see docs/notes/C07-e2e.md)
+	Res string `json:"res"`
 }
 
 // judgeShares returns the eon number under whose key every share of the message is a genuine share
@@ -774,11 +778,9 @@ func (c *Cluster) Proc(i int) J {
 		for len(k.trigA) > 0 {
 			ev := <-k.trigA
 			o, p, e := c.handleTrigger(k, ev)
+			o.Res = e
 			out = append(out, o)
 			prod = append(prod, p...)
-			if e != "" && errs == "" {
-				errs = "trigger: " + e
-			}
 		}
 	})
 	k.srv.SetFault(nil)
